@@ -47,7 +47,7 @@ def _callback_events(log: list[dict]) -> tuple[list[dict], int]:
     so only the per-key protocol is prescribed, not which process does what when (a design may look all keys up
     first, in the caller's process); a repeated name_fn call for a key within a run is not an event of its own."""
     pids: dict[int, int] = {}
-    out, named = [], set()
+    out, named, comp = [], set(), set()
     for r in log:
         if r["e"] not in CB_EVENTS:
             continue
@@ -56,25 +56,32 @@ def _callback_events(log: list[dict]) -> tuple[list[dict], int]:
             if r["k"] in named:
                 continue
             named.add(r["k"])
+        if r["e"] == "compute":
+            if r["k"] in comp:       # (an entry point that computes a row twice would show up as wrong counts elsewhere)
+                continue
+            comp.add(r["k"])
+        if r["e"] == "save_begin" and r["k"] not in comp:
+            comp.add(r["k"])         # entry points without worker=: the save witnesses the computation
+            out.append(_ev("compute", r["k"], r["k"]))
         out.append(_ev(r["e"], r["k"], r["k"], ok=r.get("ok", True)))
     return out, len(pids)
 
 
+def _close_deep(a, b) -> bool:
+    if isinstance(a, dict) and isinstance(b, dict):
+        return a.keys() == b.keys() and all(_close_deep(a[k], b[k]) for k in a)
+    if isinstance(a, list) and isinstance(b, list):
+        return len(a) == len(b) and all(_close_deep(x, y) for x, y in zip(a, b))
+    if isinstance(a, float) and isinstance(b, (int, float)) or isinstance(b, float) and isinstance(a, (int, float)):
+        if a != a or b != b:
+            return a != a and b != b
+        return abs(a - b) <= 1e-9 * max(1.0, abs(a), abs(b))
+    return a == b
+
+
 def same_result(flavour: str, a: dict, b: dict) -> bool:
-    if flavour == "pmap":
-        return a == b
-    if a["index"] != b["index"] or a["vcols"] != b["vcols"] or a["fcols"] != b["fcols"]:
-        return False
-    for key in ("v", "f"):
-        if len(a[key]) != len(b[key]):
-            return False
-        for ra, rb in zip(a[key], b[key]):
-            if len(ra) != len(rb):
-                return False
-            for x, y in zip(ra, rb):
-                if not (abs(x - y) <= 1e-9 * max(1.0, abs(x), abs(y))):
-                    return False
-    return True
+    """pmap: exact; library containers (projected to index / columns / numbers): equal up to 1e-9."""
+    return a == b if flavour == "pmap" else _close_deep(a, b)
 
 
 def run_scenario(sc: dict) -> dict:
@@ -193,12 +200,14 @@ def run_inproc(sc: dict) -> dict:
     chunks, cur = [], None
     for r in log:
         if r["e"] == "op":
-            cur = {"op": r["op"], "log": []}
+            cur = {"op": r["op"], "log": [], "mask": r["k"]}
             chunks.append(cur)
         elif cur is not None:
             cur["log"].append(r)
     runs = (res or {}).get("out", {}).get("runs", []) if res and res.get("ok") else []
     bad, ri, first = None, 0, True
+    expect = set(range(1, sc["nk"] + 1))        # keys the next run has to compute: those without a stored entry
+    raw_computes = lambda lg: sorted(r["k"] for r in lg if r["e"] == "compute")   # noqa: E731  (worker hook, if any)
     for ch in chunks:
         if ch["op"] == "mutate":
             events.append(_ev("mutate"))
@@ -206,8 +215,15 @@ def run_inproc(sc: dict) -> dict:
         if ch["op"] == "clear":
             events.append(_ev("clear"))
             first = True
+            expect = set(range(1, sc["nk"] + 1))
             continue
-        if ch["op"] == "rerun":
+        if ch["op"] == "drop":
+            events.append(_ev("drop", ch["mask"]))          # k = bit mask of the dropped keys; starts the next run
+            expect = {k for k in range(1, sc["nk"] + 1) if ch["mask"] >> (k - 1) & 1}
+            continue
+        if ch["op"] == "rerun*":
+            pass
+        elif ch["op"] == "rerun":
             events.append(_ev("newrun"))
         elif not first:
             events.append(_ev("newrun"))
@@ -223,12 +239,25 @@ def run_inproc(sc: dict) -> dict:
         ri += 1
         same = same_result(sc["flavour"], run["out"], run["ref"])
         events.append(_ev("end", ok=True, same=same))
-        computed = sorted(e["k"] for e in evs if e["e"] == "compute")
+        computed = sorted({e["k"] for e in evs if e["e"] == "compute"})
+        hook = raw_computes(ch["log"])
+        loads = sorted(e["k"] for e in evs if e["e"] == "load_end" and e["ok"])
+        want = sorted(expect)
+        rest = sorted(set(range(1, sc["nk"] + 1)) - expect)
         if not same and not bad:
             bad = {"what": "results differ from the uncached run of the current function", "op_index": ri - 1, "op": run["op"],
                    "version": run["ver"], "got": run["out"], "expected": run["ref"]}
-        elif run["op"] == "rerun" and computed and not bad:
-            bad = {"what": "a run that follows a completed run recomputed", "computed": computed, "op_index": ri - 1}
+        elif run.get("stored", sc["nk"]) != sc["nk"] and not bad:
+            bad = {"what": "a completed run did not leave one stored entry per key", "stored": run.get("stored"),
+                   "keys": sc["nk"], "op_index": ri - 1, "op": run["op"]}
+        elif (computed != want or (hook and sorted(set(hook)) != want) or len(hook) > len(want)) and not bad:
+            bad = {"what": "a run must compute exactly the keys without a stored entry"
+                           + (" (a run that follows a completed run recomputed)" if not want else ""),
+                   "computed": computed, "worker_calls": hook, "expected": want, "op_index": ri - 1, "op": run["op"]}
+        elif loads != rest and not bad:
+            bad = {"what": "a run must load exactly the stored entries", "loaded": loads, "expected": rest,
+                   "op_index": ri - 1, "op": run["op"]}
+        expect = set()
         if bad:
             break
     if not bad and (not res or not res.get("ok")):
@@ -252,10 +281,10 @@ def inproc_scenarios(ctx: Ctx, payloads: list) -> list[dict]:
         ops = json.loads(h)
         if ops[-1] == "mutate":
             continue
-        for fl in FLAVOURS:
+        for fl in FLAVOURS + sorted(ck.ENTRY_POINTS):
             for name, (w_run, w_rerun) in patterns.items():
-                steps = [{"op": o, "w": w_run if o == "run" else w_rerun if o == "rerun" else 0} for o in ops]
-                menus = MENUS[fl]
+                steps = [{"op": o, "w": w_run if o == "run" else w_rerun if o.startswith("rerun") else 0} for o in ops]
+                menus = MENUS.get(fl, MENUS["scan"])
                 out.append({"id": f"p{len(out)}", "flavour": fl, "keys": menus[len(out) % len(menus)], "nk": 3, "ops": ops,
                             "modes": name, "steps": steps,
                             "dir": str(ctx.work / "inproc" / f"p{len(out)}")})
@@ -472,6 +501,9 @@ TRACE_CFG = """CONSTANTS
     Design = "any"
     Policy = "any"
     RenameAt = "closed"
+    Recover = FALSE
+    Forwards = TRUE
+    MaxDrop = 3
     LossyNames = FALSE
     Memo = FALSE
     MaxClear = 2
@@ -500,7 +532,7 @@ def _tlc_many(ctx: Ctx, jobs: list[tuple]) -> list:
         except MachineryError as e:
             return e
 
-    with ThreadPoolExecutor(max_workers=len(jobs)) as ex:
+    with ThreadPoolExecutor(max_workers=min(6, len(jobs))) as ex:     # <= 6 JVMs side by side
         out = list(ex.map(one, jobs))
     for r in out:
         if isinstance(r, Exception):
@@ -514,6 +546,8 @@ def model_check(ctx: Ctx, rep: Report) -> dict:
         ("pinned", "CacheCrash_pinned.cfg", {"expect_violation": True, "workers": 2}, ""),
         ("earlyrename", "CacheCrash_earlyrename.cfg", {"expect_violation": True, "workers": 2}, ""),
         ("memo", "CacheCrash_memo.cfg", {"expect_violation": True, "workers": 2}, ""),
+        ("nocache", "CacheCrash_nocache.cfg", {"expect_violation": True, "workers": 2}, ""),
+        ("promote", "CacheCrash_promote.cfg", {"expect_violation": True, "workers": 2}, ""),
         ("lossy", "CacheCrash_lossy.cfg", {"expect_violation": True, "workers": 2}, ""),
         ("inproc", "CacheCrash_inproc.cfg", {"workers": 2},
          "in-process histories without a crash (run, rerun, mutate, clear + changed function, ...): RightResults, "
@@ -543,6 +577,21 @@ def model_check(ctx: Ctx, rep: Report) -> dict:
             rep.notes["pinned_commit_design_counterexample"] = (
                 f"TLC: NoRaise violated for Design=direct, Policy=trust ({res.distinct} states): crash between Open "
                 "and the last Write, the rerun raises")
+            continue
+        if name == "nocache":
+            if res.violated != "NoRecompute":
+                raise MachineryError("the wrong instance 'an entry point accepts cache= but does not forward it' should "
+                                     f"violate NoRecompute; TLC said {res.violated!r}")
+            rep.notes["dropped_cache_counterexample"] = (
+                f"TLC: NoRecompute violated for Forwards=FALSE ({res.distinct} states): nothing is stored, the repeated run computes")
+            continue
+        if name == "promote":
+            if res.violated != "NoRaise":
+                raise MachineryError("the wrong instance 'leftover temporary files are promoted when the next run starts' "
+                                     f"should violate NoRaise; TLC said {res.violated!r}")
+            rep.notes["promoted_fragment_counterexample"] = (
+                f"TLC: NoRaise violated for Recover=TRUE ({res.distinct} states): crash strictly inside a write, the rerun "
+                "publishes the fragment under the final name and the load raises")
             continue
         if name == "lossy":
             if res.violated != "RightResults":
@@ -607,18 +656,18 @@ def build_scenarios(ctx: Ctx, emitted: dict, sizes: dict) -> list[dict]:
                 n_off = None if exhaustive else (3 if q else 24)
                 scs += with_keys(sizes, rnd, p, fl, w, n_off, both_points=True)
     # B. two crashes in a row
-    pick = rnd.sample(double, 110) if q else double
+    pick = rnd.sample(double, 50 if q else min(800, len(double)))
     for p in pick:
         fl = rnd.choice(FLAVOURS)
         scs += with_keys(sizes, rnd, p, fl, rnd.choice((0, 1)), 1)
     # C. pools of 2 (and 3) workers: every global crash state
     par = emitted["par"]
-    pick = rnd.sample(par, 220) if q else par
+    pick = rnd.sample(par, 120) if q else par
     for p in pick:
         for fl in ([rnd.choice(FLAVOURS)] if q else FLAVOURS):
             scs += with_keys(sizes, rnd, p, fl, 2, 1 if q else 3)
     if not q:
-        for name, w, n in (("par3", 3, 900), ("par2x", 2, 700)):
+        for name, w, n in (("par3", 3, 450), ("par2x", 2, 350)):
             ps = emitted[name]
             for p in rnd.sample(ps, min(n, len(ps))):
                 fl = rnd.choice(FLAVOURS)
@@ -658,7 +707,7 @@ def run(ctx: Ctx) -> int:
     refs, sizes = {}, {}
     combos = [(fl, m) for fl in FLAVOURS for m in MENUS[fl]] + [("pmap", "equal-str")]
     firsts = ck.lanes(clean_run, [{"flavour": fl, "keys": m, "nk": nk, "w": 0, "dir": str(ctx.work / "clean" / f"{fl}_{m}_ref")}
-                                  for fl, m in combos], ctx.work, tag="ref")
+                                  for fl, m in combos], ctx.work, n=8, tag="ref")
     trace_items = []
     for (fl, m), first in zip(combos, firsts):
         rep.evaluations += 1
@@ -689,7 +738,7 @@ def run(ctx: Ctx) -> int:
                     clean_jobs.append({"flavour": fl, "keys": m, "nk": n, "w": w, "dir": str(ctx.work / "clean" / f"{fl}_{n}_{w}"),
                                        "reference": refs[(fl, m)] if n == nk else None})
     rep.notes["result_file_sizes"] = {f"{fl}/{m}": v for (fl, m), v in sizes.items()}
-    cleans = ck.lanes(clean_run, clean_jobs, ctx.work, tag="clean")
+    cleans = ck.lanes(clean_run, clean_jobs, ctx.work, n=8, tag="clean")
     for j, c in zip(clean_jobs, cleans):
         rep.evaluations += 1
         rep.replayed += 1
@@ -716,14 +765,26 @@ def run(ctx: Ctx) -> int:
                 for offs in sc["offsets"]:
                     for k in list(offs):
                         offs[k] = max(1, min(offs[k], c["sizes"][int(k) - 1] - 1))
-    psc = [p for p in inproc_scenarios(ctx, emitted["inproc"]) if (p["flavour"], p["keys"]) in sizes]
-    if ctx.quick:      # the canonical history in every mode and flavour, plus a seeded sample of the others
-        rnd_p = random.Random(ctx.seed + 7)
-        canon = [p for p in psc if p["ops"] in (["run", "rerun", "clear", "run", "rerun"],
-                                                ["run", "rerun", "mutate", "rerun", "clear", "run", "rerun"])]
-        rest = [p for p in psc if p not in canon]
-        psc = canon + rnd_p.sample(rest, min(12, len(rest)))
-    both = ck.lanes(run_any, psc + scs, ctx.work, tag="inj")
+    psc = [p for p in inproc_scenarios(ctx, emitted["inproc"])
+           if p["flavour"] in ck.ENTRY_POINTS or (p["flavour"], p["keys"]) in sizes]
+    # base flavours: the canonical histories in every execution pattern + a seeded sample of the others.
+    # Every public entry point that takes cache= : fresh -> repeated -> half-filled (-> cleared), in two execution
+    # patterns each (seeded), + a sample.
+    rnd_p = random.Random(ctx.seed + 7)
+    canon_ops = (["run", "rerun", "clear", "run", "rerun"], ["run", "rerun", "mutate", "rerun", "clear", "run", "rerun"])
+    ep_ops = (["run", "rerun", "drop{1}", "rerun*", "rerun"], ["run", "drop{2}", "rerun*", "clear", "run", "rerun"])
+    base = [p for p in psc if p["flavour"] in FLAVOURS]
+    canon = [p for p in base if p["ops"] in canon_ops or (p["ops"] == ep_ops[0] and p["modes"] in ("seq", "pool"))]
+    chosen = list(canon)
+    for ep in sorted(ck.ENTRY_POINTS):
+        for ops in ep_ops:
+            cands = [p for p in psc if p["flavour"] == ep and p["ops"] == ops]
+            if not cands:
+                raise MachineryError(f"in-process history {ops} was not emitted by CacheCrash_inproc.cfg")
+            chosen.append(rnd_p.choice(cands))
+    rest = [p for p in psc if p not in chosen]
+    psc = chosen + rnd_p.sample(rest, min(12 if ctx.quick else 150, len(rest)))
+    both = ck.lanes(run_any, psc + scs, ctx.work, n=8, tag="inj")
     presults, results = both[:len(psc)], both[len(psc):]
     unreal, cuts, fallback, other, partial = 0, 0, 0, 0, 0
     failed: dict[str, dict] = {}
